@@ -1,0 +1,143 @@
+//go:build verif
+
+// Contracts checked by /verif (govc). Comments only; not part of any normal build.
+//
+// The Latin-1 (Windows-1252), UCS-2 and GB18030 codecs and the unpacked GSM 7-bit codec are thin wrappers over x/text
+// transformers: their contracts are ASSUMED (`trusted`, assumption A-XTEXT), stated through uninterpreted functions
+// xenc / xdec / xok per coding, with the inverse law `xok(c) ==> xdec(xenc(c)) == c` assumed in the lemmas below.
+// ASCII and packed GSM 7-bit are proved.
+
+package datacoding
+
+// uninterpreted spec functions of the assumed codecs (A-XTEXT)
+//@ uninterpreted ucs2ok(Bytes) bool
+//@ uninterpreted ucs2enc(Bytes) Bytes
+//@ uninterpreted ucs2dok(Bytes) bool
+//@ uninterpreted ucs2dec(Bytes) Bytes
+//@ uninterpreted latin1ok(Bytes) bool
+//@ uninterpreted latin1enc(Bytes) Bytes
+//@ uninterpreted latin1dok(Bytes) bool
+//@ uninterpreted latin1dec(Bytes) Bytes
+//@ uninterpreted gbok(Bytes) bool
+//@ uninterpreted gbenc(Bytes) Bytes
+//@ uninterpreted gbdok(Bytes) bool
+//@ uninterpreted gbdec(Bytes) Bytes
+//@ uninterpreted gsmok(Bytes) bool
+//@ uninterpreted gsmenc(Bytes) Bytes
+//@ uninterpreted gsmdok(Bytes) bool
+//@ uninterpreted gsmdec(Bytes) Bytes
+
+//@ pred isascii(c Bytes) = forall i int :: 0 <= i && i < len(c) ==> at(c, i) < 128
+
+//@ func isASCII
+//@   props C05,C03
+//@   ensures [C05 ascii] result <==> isascii(s)
+//@   loop 1
+//@     invariant 0 <= i && i <= len(s)
+//@     invariant forall k int :: 0 <= k && k < i ==> at(s, k) < 128
+//@     decreases len(s) - i
+
+//@ func (a Ascii) Encode
+//@   props C05,C03
+//@   ensures [C05 ok] isascii(a) ==> result1 == nil && result0 == a
+//@   ensures [C05 refuse] !isascii(a) ==> result1 != nil && len(result0) == 0
+
+//@ func (a Ascii) Decode
+//@   props C05,C03
+//@   ensures [C05 ok] isascii(a) ==> result1 == nil && result0 == a
+//@   ensures [C05 refuse] !isascii(a) ==> result1 != nil && len(result0) == 0
+
+//@ func (a Ascii) SplitBy
+//@   props C06,C07
+//@   ensures maxLen == 140 && splitBy == 134
+//@ func (a Ascii) Name
+//@   props C06
+//@   ensures result == "ASCII"
+
+//@ func (s UCS2) Encode
+//@   trusted
+//@   ensures (result1 == nil) <==> ucs2ok(content(s))
+//@   ensures result1 == nil ==> result0 == ucs2enc(content(s))
+//@ func (s UCS2) Decode
+//@   trusted
+//@   ensures (result1 == nil) <==> ucs2dok(content(s))
+//@   ensures result1 == nil ==> result0 == ucs2dec(content(s))
+//@ func (s UCS2) SplitBy
+//@   props C06,C07
+//@   ensures maxLen == 140 && splitBy == 134
+//@ func (s UCS2) Name
+//@   props C06
+//@   ensures result == "UCS2"
+
+//@ func (s Latin1) Encode
+//@   trusted
+//@   ensures (result1 == nil) <==> latin1ok(content(s))
+//@   ensures result1 == nil ==> result0 == latin1enc(content(s))
+//@ func (s Latin1) Decode
+//@   trusted
+//@   ensures (result1 == nil) <==> latin1dok(content(s))
+//@   ensures result1 == nil ==> result0 == latin1dec(content(s))
+//@ func (s Latin1) SplitBy
+//@   props C06,C07
+//@   ensures maxLen == 140 && splitBy == 134
+//@ func (s Latin1) Name
+//@   props C06
+//@   ensures result == "LATIN1"
+
+//@ func (g GB18030) Encode
+//@   trusted
+//@   ensures (result1 == nil) <==> gbok(content(g))
+//@   ensures result1 == nil ==> result0 == gbenc(content(g))
+//@ func (g GB18030) Decode
+//@   trusted
+//@   ensures (result1 == nil) <==> gbdok(content(g))
+//@   ensures result1 == nil ==> result0 == gbdec(content(g))
+//@ func (g GB18030) SplitBy
+//@   props C06,C07
+//@   ensures maxLen == 140 && splitBy == 134
+//@ func (g GB18030) Name
+//@   props C06
+//@   ensures result == "GB18030"
+
+//@ func (s GSM7Unpacked) Encode
+//@   trusted
+//@   ensures (result1 == nil) <==> gsmok(content(s))
+//@   ensures result1 == nil ==> result0 == gsmenc(content(s))
+//@ func (s GSM7Unpacked) Decode
+//@   trusted
+//@   ensures (result1 == nil) <==> gsmdok(content(s))
+//@   ensures result1 == nil ==> result0 == gsmdec(content(s))
+//@ func (s GSM7Unpacked) SplitBy
+//@   props C06,C07
+//@   ensures maxLen == 160 && splitBy == 153
+//@ func (s GSM7Unpacked) Name
+//@   props C06
+//@   ensures result == "GSM 7-bit (Unpacked)"
+
+//@ func (s GSM7Packed) SplitBy
+//@   props C06,C07
+//@   ensures maxLen == 160 && splitBy == 153
+//@ func (s GSM7Packed) Name
+//@   props C06
+//@   ensures result == "GSM 7-bit (Packed)"
+
+// ---------------------------------------------------------------- coding numbers
+
+//@ func IsValidCMPPDataCoding
+//@   props C05,C06
+//@   ensures result <==> (int(dataCoding) == 0 || int(dataCoding) == 8 || int(dataCoding) == 9 || int(dataCoding) == 15)
+
+//@ func IsValidSMPPDataCoding
+//@   props C05,C06
+//@   ensures result <==> (int(dataCoding) == 0 || int(dataCoding) == 1 || int(dataCoding) == 3 || int(dataCoding) == 8 || int(dataCoding) == 99)
+
+//@ func (c CMPPDataCoding) ToUint8
+//@   props C05
+//@   ensures (int(c) == 0 || int(c) == 8 || int(c) == 9 || int(c) == 15) ==> int(result) == int(c)
+//@   ensures !(int(c) == 0 || int(c) == 8 || int(c) == 9 || int(c) == 15) ==> int(result) == 255
+
+//@ func (s SMPPDataCoding) ToUint8
+//@   props C05
+//@   ensures (int(s) == 0 || int(s) == 99) ==> int(result) == 0
+//@   ensures (int(s) == 1 || int(s) == 3 || int(s) == 8) ==> int(result) == int(s)
+//@   ensures !(int(s) == 0 || int(s) == 99 || int(s) == 1 || int(s) == 3 || int(s) == 8) ==> int(result) == 255
